@@ -13,6 +13,14 @@ NOTES = ("All checks are solver-based: werkzeug's source is executed symbolicall
 _PENDING = "check not built yet in this round (see DESIGN.md section 4 for the plan); not claimed until its harness validates"
 
 CLAIMS = {
+    "C01": {
+        "text": "Bounded symbolic execution of the real MultipartDecoder end-to-end (PREAMBLE..EPILOGUE; receive_data, next_event, _parse_data, last_newline, _parse_headers, live regexes) on bodies whose part payload is n solver bytes over all 256 values: fed whole and split at every offset (all 2-way splits; thorough adds 3-way splits around the payload), the two event streams are compared inside one z3 query per path, plus an absolute oracle (look-alike-free payload comes back byte-exact); CRLF, bare-LF and bare-CR framing, body-less parts, a following part. One level up MultiPartParser.parse/_chunk_iter run over a stream stub for every buffer_size 1..len+1 (thorough: plus one solver-placed short read). unsat on every path = independent of chunking for every payload within the bound.",
+        "note": "Trusted: interpreter + primitive models (validated on every path by native replay), z3. Bounds: payload <= 4 bytes quick / 4-5 thorough, boundary b'b' (thorough also b'-b', b'bb'), concrete header block. Longer payloads, other boundaries, k>3-way splits are outside the claim.",
+    },
+    "C10": {
+        "text": "Symbolic execution of MultipartDecoder.receive_data/next_event, MultiPartParser.parse and wsgi.get_input_stream with max_form_memory_size, max_form_parts and max_content_length as solver integers (or None): buffer length <= limit after every receive, part counter, accumulated field size, and the pure-guard law (a limited run that succeeds returns exactly the unlimited result, compared in the same query) over symbolic payload bytes, several part shapes, buffer sizes and 2-way splits; get_input_stream's decision table against an independent reading of CONTENT_LENGTH for every text <= 3 characters in U+0000..U+07FF.",
+        "note": "Trusted: as C01 plus the stream / stream_factory stubs. Bounds: field payload <= 4 (quick) / 6 bytes, 1-4 parts, limits 0..len(body)+2. urlencoded bodies: only the declared-length check is covered.",
+    },
     "C09": {
         "text": "Bounded symbolic execution of wsgi.LimitedStream (readinto/readall/exhaust/on_exhausted/on_disconnect) from the real source: data length, limit, is_max, read sizes, per-call fragment sizes of the underlying stream and the fault point are solver variables; every sequence of 2 (quick) / 3 (thorough) operations over read/readinto/readall/exhaust is explored and each path's query (no over-read, prefix-exactness, readinto buffer contract, disconnect/too-large only when warranted) is unsat. Holds for every value within the bounds, says nothing beyond them.",
         "note": "Trusted: the interpreter's model of Python semantics (validated per path by native replay), z3, the io.RawIOBase.read stub (documented definition), the nondeterministic underlying-stream stub. Bounds: data <= 6/8 bytes, 2/3 operations.",
